@@ -389,9 +389,15 @@ theorem inv_step {s : St} (h : Inv s) (op : Op) : Inv (step s op) := by
     simp only [step, append, hc]
     exact inv_mutate hm c _ hc
   | remove x =>
-    obtain ⟨hm, _, _, c, hc⟩ := inv_materialize h
-    simp only [step, remove, hc]
-    exact inv_mutate hm c _ hc
+    have ht := inv_touch h
+    simp only [step, remove]
+    cases hc : (touch s).cur with
+    | absent => simp only; exact ht
+    | val c =>
+      simp only
+      split
+      · exact inv_mutate ht c _ hc
+      · exact ht
   | replace l =>
     obtain ⟨hm, _, _, c, hc⟩ := inv_materialize h
     simp only [step, replace]
